@@ -1211,6 +1211,10 @@ func main() {
 		fmt.Fprintln(os.Stderr, err)
 		os.Exit(1)
 	}
+	if err := os.WriteFile(filepath.Join(out, "Handshake.lean"), []byte(handshakeSkeletons(repo)), 0o644); err != nil {
+		fmt.Fprintln(os.Stderr, err)
+		os.Exit(1)
+	}
 	if err := os.WriteFile(filepath.Join(out, "Transport.lean"), []byte(transportSkeletons(repo)), 0o644); err != nil {
 		fmt.Fprintln(os.Stderr, err)
 		os.Exit(1)
